@@ -489,6 +489,7 @@ package sio
 //@   ensures !volatile && !forceSend && old(s.state) != clientSocketConnStateConnected && len(buffers) > 0 ==> sent == 0 && len(s.sendBuffer) == old(len(s.sendBuffer)) + len(buffers) [C15.buf.offline]
 //@   ensures !volatile && !forceSend && old(s.state) != clientSocketConnStateConnected && len(buffers) > 0 ==> forall k int :: 0 <= k && k < len(buffers) ==> s.sendBuffer[old(len(s.sendBuffer)) + k].ackID == ackID && s.sendBuffer[old(len(s.sendBuffer)) + k].packet != nil && s.sendBuffer[old(len(s.sendBuffer)) + k].packet.Data == old(buffers[k]) [C15.buf.offline.order]
 //@   ensures !volatile && !forceSend && old(s.state) != clientSocketConnStateConnected ==> forall k int :: 0 <= k && k < old(len(s.sendBuffer)) ==> s.sendBuffer[k] == old(s.sendBuffer[k]) [C15.buf.offline.keeps]
+//@   ensures !volatile && !forceSend && old(s.state) != clientSocketConnStateConnected && len(buffers) > 0 ==> forall k int :: 0 <= k && k < len(buffers) ==> s.sendBuffer[old(len(s.sendBuffer)) + k].ackID == ackID [C03.offline.every.frame.carries.the.ack.id]
 //@   loop 0 invariant len(packets) == len(old(buffers)) && len(buffers) == len(old(buffers)) - 1 && arr(buffers) == arr(old(buffers)) && off(buffers) == off(old(buffers)) + 1
 //@   loop 0 invariant packets[0] != nil && !packets[0].IsBinary && packets[0].Type == 4 && packets[0].Data == old(buffers[0])
 //@   loop 0 invariant forall k int :: 1 <= k && k <= rangeindex + 1 ==> packets[k] != nil && packets[k].IsBinary && packets[k].Type == 4 && packets[k].Data == old(buffers[k])
@@ -1422,7 +1423,21 @@ package sio
 //@   callsite (*clientSocket).destroy skip
 //@   callsite onError skip
 //@   callsite forEach skip
+//@   callsite fmt.Errorf
+//@     requires literal(arg0) [C12.cli.connect.error.text.is.never.a.format]
 //@   ensures s.state == clientSocketConnStateDisconnected [C05.cli.refused.not.attached]
+// The rejection the server sent reaches the OnConnectError handlers as it is: a textual one is the ARGUMENT of a
+// constant format, never the format itself (a '%' in the text would garble it), anything else is handed over as is.
+//@ func (*clientSocket).onConnectError$1
+//@   opt safety off
+//@   requires handler != nil
+//@   ghost calls int = 0
+//@   callsite fmt.Errorf
+//@     requires literal(arg0) && arg0 == "%s" && len(arg1) == 1 && typeis(v.Message, string) && unbox(arg1[0], string) == unbox(v.Message, string) [C12.cli.connect.error.text.carried]
+//@   callsite *handler
+//@     requires calls == 0 && (typeis(v.Message, string) || arg0 == v.Message) [C12.cli.connect.error.value.carried]
+//@     update calls = calls + 1
+//@   ensures calls == 1 [C12.cli.connect.error.handler.called.once]
 
 // C02 (single drainer): every connection's frame queue gets exactly ONE drainer goroutine, started on THAT queue with
 // THAT connection's Engine.IO socket (two drainers, or a drainer on a stale queue, would reorder or strand frames).
@@ -1438,6 +1453,12 @@ package sio
 //@     requires arg0 == _eio && drainers == 0 [C02.drainer.single.server]
 //@     update drainers = drainers + 1
 //@   ensures drainers == 1 && result0 != nil && result0.eio == _eio && result0.server == server [C02.drainer.started.server]
+// C07 / C06: what the Engine.IO socket reports is wired to the handlers of THIS connection, each to its own kind: a
+// (non-fatal) transport error - a failed or timed-out upgrade attempt is reported that way - goes to onError and must
+// not end the session; only OnClose does.
+//@   ensures result1 != nil && ismethod(result1.OnPacket, result0, onEIOPacket) [C01.conn.wiring.packets]
+//@   ensures ismethod(result1.OnError, result0, onError) [C07.conn.wiring.upgrade.error.is.not.fatal]
+//@   ensures ismethod(result1.OnClose, result0, onClose) [C06.conn.wiring.close]
 
 //@ func (*Manager).connect
 //@   opt safety off
@@ -1484,3 +1505,139 @@ package sio
 //@     update n = n + 1
 //@   ensures old(sent) ==> n == 0 [C03.cli.ack.at.most.once]
 //@   ensures !old(sent) ==> n == 1 && sent [C03.cli.ack.first.reply.sent]
+
+// C05 (client): a Manager has at most ONE socket per namespace, filed under the canonical name ("" and "chat" are
+// "/" and "/chat"): a socket is created and stored only when the store has none under that canonical name, so the
+// routing entry of an attached socket is never overwritten by a second object for the same namespace.
+//@ func newClientSocket
+//@   opt safety off
+//@   requires config != nil
+//@   pure
+//@   panics_if config.Auth != nil       // documented: SetAuth rejects auth data that is neither a struct nor a map by panicking
+//@   ensures result != nil && fresh(result) && result.namespace == namespace && result.manager == manager [C05.client.socket.made.for.the.namespace]
+//@ define cstoreOK(m *Manager) bool = forall k string :: (k in m.sockets.sockets) ==> m.sockets.sockets[k] != nil && m.sockets.sockets[k].namespace == k
+//@ func (*Manager).socket
+//@   opt safety off
+//@   requires m != nil && m.sockets != nil && m.sockets.sockets != nil && cstoreOK(m)
+//@   ensures cstoreOK(m) [C05.manager.store.keyed.by.namespace]
+//@   callsite (*clientSocketStore).set
+//@     requires arg0 != nil && !(arg0.namespace in m.sockets.sockets) [C05.manager.one.socket.per.namespace]
+//@     requires len(arg0.namespace) >= 1 && arg0.namespace[0] == 47 [C05.manager.stores.canonical.name]
+//@     requires old(namespace) == "" ==> arg0.namespace == "/" [C05.manager.empty.name.is.root]
+//@     requires len(old(namespace)) >= 1 && old(namespace)[0] == 47 ==> arg0.namespace == old(namespace) [C05.manager.canonical.name.kept]
+//@   ensures result != nil && len(result.namespace) >= 1 && result.namespace[0] == 47 [C05.manager.socket.canonical]
+//@   ensures (result.namespace in m.sockets.sockets) && m.sockets.sockets[result.namespace] == result [C05.manager.socket.is.the.stored.one]
+
+// C18 (Namespace.OnEvent / OnceEvent / OffEvent): the handlers that run for an occurrence are those registered WHEN
+// IT OCCURS - the set is looked up once, by the caller, before the delivery goroutine is started; the goroutine
+// itself never looks the store up (a later Off must not un-deliver, a later Once must not catch an earlier one).
+//@ func (*Namespace).OnServerSideEmit
+//@   opt safety off
+//@   requires n != nil && n.eventHandlers != nil
+//@   ghost snap int = 0
+//@   callsite (*eventHandlerStore).getAll skip
+//@     requires recv == n.eventHandlers && arg0 == eventName [C18.nsp.serverside.looks.up.its.event]
+//@     update snap = snap + 1
+//@   callsite OnServerSideEmit$1 go
+//@     requires snap == 1 [C18.nsp.serverside.handlers.snapshot.at.occurrence]
+//@ func (*Namespace).OnServerSideEmit$1
+//@   opt safety off
+//@   callsite (*eventHandlerStore).getAll
+//@     requires false [C18.nsp.serverside.no.late.lookup]
+
+// C12 / C05: creating a namespace on demand is ATOMIC with looking it up - the store's lock is never released while
+// the decision "this name has no namespace yet" is pending, so two concurrent Of() / CONNECT calls for one new name
+// cannot create two Namespace objects (a middleware registered on the orphan would never run). Stated at every
+// release of the lock: the name has its namespace by then. And the object is filed under the name asked for.
+//@ func newNamespace
+//@   opt safety off
+//@   requires server != nil && server.debug != nil
+//@   ensures result != nil && fresh(result) && result.name == name && result.server == server [C12.nsp.new.named]
+//@ func (*nspStore).getOrCreate
+//@   opt safety off
+//@   requires s != nil && s.nsps != nil && server != nil && server.debug != nil
+//@   requires forall k string :: (k in s.nsps) ==> s.nsps[k] != nil && s.nsps[k].name == k
+//@   callsite Unlock
+//@     requires name in s.nsps [C12.nsp.getorcreate.atomic]
+//@   ensures nsp != nil && nsp.name == name && (name in s.nsps) && s.nsps[name] == nsp [C12.nsp.getorcreate.result.is.the.stored.one]
+
+// C12: registering a middleware ALWAYS extends the chain by exactly that function, at the end (registration order is
+// run order); the functions registered before keep their places. No registration is dropped, merged or reordered.
+//@ func (*Namespace).Use
+//@   requires n != nil
+//@   ensures len(n.middlewareFuncs) == old(len(n.middlewareFuncs)) + 1 && n.middlewareFuncs[old(len(n.middlewareFuncs))] == f [C12.use.appends.the.function]
+//@   ensures forall k int :: 0 <= k && k < old(len(n.middlewareFuncs)) ==> n.middlewareFuncs[k] == old(n.middlewareFuncs[k]) [C12.use.keeps.the.chain]
+//@ func (*serverSocket).Use
+//@   opt safety off
+//@   requires s != nil
+//@   panics_if true       // documented: a function of the wrong shape is rejected by panicking
+//@   callsite (*serverSocket).checkMiddlewareFunc skip
+//@   callsite reflect.ValueOf skip
+//@   ensures !panicked() ==> len(s.middlewareFuncs) == old(len(s.middlewareFuncs)) + 1 [C12.ev.use.appends]
+//@   ensures forall k int :: 0 <= k && k < old(len(s.middlewareFuncs)) ==> s.middlewareFuncs[k] == old(s.middlewareFuncs[k]) [C12.ev.use.keeps.the.chain]
+
+// C02: the adapter's delivery to one socket hands the frames to that socket's connection SYNCHRONOUSLY and once -
+// a goroutine per delivery would let two consecutive emits of one goroutine reach the connection queue in either order.
+//@ func (*nspSocketStore).sendBuffers
+//@   opt safety off
+//@   requires s != nil
+//@   ghost sent int = 0
+//@   callsite (*serverConn).sendBuffers go
+//@     requires false [C02.store.delivery.is.synchronous]
+//@   callsite (*serverConn).sendBuffers sync
+//@     requires arg0 == buffers && sent == 0 [C02.store.delivery.same.frames]
+//@     update sent = sent + 1
+//@   ensures ok ==> sent == 1 [C02.store.delivery.once]
+//@   ensures !ok ==> sent == 0 [C02.store.delivery.only.when.found]
+
+// C08: which ways of losing a connection leave a recoverable session behind is a constant of the package, fixed when
+// the package is initialised: every reason that is NOT a deliberate disconnect by either application - a cut or
+// failed transport, a forced close, a PING TIMEOUT (the network went away silently: the very case recovery exists
+// for), a server shutting down or closed - and none of the deliberate ones.
+//@ define hasreason(v []Reason, n int, y string) bool = n <= 0 ? false : (v[n-1] == y || hasreason(v, n - 1, y))
+//@ func init
+//@   opt safety off
+//@   callsite NewThreadUnsafeSet
+//@     requires hasreason(arg0, len(arg0), "transport error") && hasreason(arg0, len(arg0), "transport close") && hasreason(arg0, len(arg0), "forced close") [C08.recoverable.transport.loss]
+//@     requires hasreason(arg0, len(arg0), "ping timeout") [C08.recoverable.ping.timeout]
+//@     requires hasreason(arg0, len(arg0), "server shutting down") && hasreason(arg0, len(arg0), "forced server close") [C08.recoverable.server.going.away]
+//@     requires !hasreason(arg0, len(arg0), "io client disconnect") && !hasreason(arg0, len(arg0), "io server disconnect") && !hasreason(arg0, len(arg0), "client namespace disconnect") && !hasreason(arg0, len(arg0), "server namespace disconnect") && !hasreason(arg0, len(arg0), "parse error") [C08.recoverable.not.the.deliberate.ones]
+
+// C15 (offline delivery, retry queue): the queue of a socket with Retries hands its head packet to emit only after
+// it has asked the socket and found it CONNECTED (an attempt made offline would be buffered AND counted, so the
+// packet is delivered twice after the reconnection, or given up on before the connection is back), at most one
+// packet per call, always the head, marked as coming from the queue and not volatile.
+//@ func (*clientPacketQueue).drainQueue
+//@   opt safety off
+//@   requires pq != nil && pq.socket != nil && pq.debug != nil
+//@   ghost conn bool = false
+//@   ghost asked int = 0
+//@   ghost sent int = 0
+//@   callsite (*clientSocket).Connected skip
+//@     requires recv == pq.socket
+//@     update asked = asked + 1
+//@     updateafter conn = result
+//@   callsite (*clientSocket).emit go
+//@     requires asked >= 1 && conn [C15.retry.queue.sends.only.while.connected]
+//@     requires recv == pq.socket && arg0 == "" && !arg2 && arg3 && sent == 0 [C15.retry.queue.send.flags]
+//@     requires len(pq.queuedPackets) >= 1 && pq.queuedPackets[0] != nil && arg4 == pq.queuedPackets[0].v [C15.retry.queue.sends.the.head]
+//@     update sent = sent + 1
+//@   ensures sent <= 1 [C15.retry.queue.one.at.a.time]
+
+// C15 / C03 (emitter modifiers): Timeout and Volatile each change their own setting and keep the other, in either
+// order; Emit passes exactly the settings it carries (a volatile emit placed offline is dropped, not buffered).
+//@ func (Emitter).Timeout
+//@   ensures result.socket == e.socket && result.timeout == timeout && result.volatile == e.volatile [C15.emitter.timeout.keeps.volatile]
+//@ func (Emitter).Volatile
+//@   ensures result.socket == e.socket && result.timeout == e.timeout && result.volatile [C15.emitter.volatile.keeps.timeout]
+//@ func (Emitter).Emit
+//@   opt safety off
+//@   panics_if true       // documented: an ack function of the wrong shape is rejected by panicking
+//@   ghost emits int = 0
+//@   callsite checkAckFunc skip
+//@   callsite TypeOf skip
+//@   callsite Kind skip
+//@   callsite emitter.emit
+//@     requires recv == e.socket && arg0 == eventName && arg1 == e.timeout && arg2 == e.volatile && !arg3 && arg4 == v && emits == 0 [C15.emitter.emit.passes.its.settings]
+//@     update emits = emits + 1
+//@   ensures emits == 1 [C15.emitter.emits.once]
